@@ -2,21 +2,68 @@
 From Coq Require Import Bool List.
 From Verif Require Import C01.Model C01.Spec C01.Proofs.
 From VerifGen Require Import C01Tables.
+Import ListNotations.
 
-(* C01: for every option setting (unset / True / False / "true"), Response and assertion signature
-   state, plain or encrypted assertion and binding: identity iff every present signature verifies
-   and the demanded signatures are carried (PAOS is never unravelled). *)
-Theorem c01_policy : forall x, spec x (parse_response x).
-Proof. exact policy_holds. Qed.
+(* C01: for every setting of the three want_* options and of only_use_keys_in_metadata (unset / True /
+   False / "true"), every Issuer the Response and the assertion name (the IdP, another federation
+   member, an entity without metadata, none), every signature on either (absent, or made by any of the
+   six keys, intact or not, shipping no / its own / the IdP's certificate in KeyInfo), plain or
+   encrypted assertion and binding: identity iff every present signature verifies under a key trusted
+   for the issuer the signed element names and the demanded signatures are carried (PAOS is never
+   unravelled; an assertion without Issuer or a Response naming another issuer than its assertion is
+   not "otherwise valid"). *)
+Theorem c01_policy : forall c m, spec_m c m (parse_message c m).
+Proof. exact policy_holds_m. Qed.
 Print Assumptions c01_policy.
 
-Theorem c01_spec_reflect : forall x i, spec_b x i = true <-> spec x i.
-Proof. exact spec_b_iff. Qed.
+Theorem c01_spec_reflect : forall c m i, spec_m_b c m i = true <-> spec_m c m i.
+Proof. exact spec_m_b_iff. Qed.
 Print Assumptions c01_spec_reflect.
 
 (* regenerated-table obligation: the defaults in the source are the documented ones *)
 Theorem c01_defaults :
   want_response_signed_default = true /\ want_assertions_signed_default = false
-  /\ want_assertions_or_response_signed_default = false.
+  /\ want_assertions_or_response_signed_default = false
+  /\ only_use_keys_in_metadata_default = true.
 Proof. exact defaults_as_documented. Qed.
 Print Assumptions c01_defaults.
+
+(* the single-message truth table of round 1 (the four signature states given; Response and assertion
+   of the IdP; 4^3 x 4 x 4 x 2 x 4 = 8192 cells): an instance of c01_policy, kept because C09 composes
+   with it *)
+Theorem c01_policy_single : forall x, spec x (parse_response x).
+Proof. exact policy_holds. Qed.
+Print Assumptions c01_policy_single.
+
+Theorem c01_spec_single_reflect : forall x i, spec_b x i = true <-> spec x i.
+Proof. exact spec_b_iff. Qed.
+Print Assumptions c01_spec_single_reflect.
+
+(* a long-lived SP: every message of every sequence obeys the table, whatever was consumed before
+   (no bound on the length of the sequence) *)
+Theorem c01_sequence : forall c ms, spec_seq c ms (sp_run c ms).
+Proof. exact sequence_holds. Qed.
+Print Assumptions c01_sequence.
+
+Theorem c01_spec_seq_reflect : forall c ms ids, spec_seq_b c ms ids = true <-> spec_seq c ms ids.
+Proof. exact spec_seq_b_iff. Qed.
+Print Assumptions c01_spec_seq_reflect.
+
+Theorem c01_history_independent :
+  forall c pre m, sp_run c (pre ++ [m]) = sp_run c pre ++ [parse_message c m].
+Proof. exact history_independent. Qed.
+Print Assumptions c01_history_independent.
+
+(* with only_use_keys_in_metadata in force (the default) a message cannot vouch for its own key:
+   what its KeyInfo ships is irrelevant, and an identity needs every present signature to be intact
+   and made by a signing key that the metadata publishes for the issuer the signed element names *)
+Theorem c01_keyinfo_ignored :
+  forall c m, only_md c = true -> parse_message c (strip_ki m) = parse_message c m.
+Proof. exact keyinfo_ignored. Qed.
+Print Assumptions c01_keyinfo_ignored.
+
+Theorem c01_identity_needs_metadata_keys :
+  forall c m, only_md c = true -> parse_message c m = true ->
+              vouched (r_who m) (m_rs m) /\ vouched (a_who m) (m_as m).
+Proof. exact identity_needs_metadata_keys. Qed.
+Print Assumptions c01_identity_needs_metadata_keys.
